@@ -150,6 +150,14 @@ class Ops:
         return st.fresh_int(origin, w, defn=defn)
 
     def binop(self, st, ins, op, x, y):
+        r = self.binop0(st, ins, op, x, y)
+        if op in ('shl', 'lshr', 'or', 'and') and isinstance(x, Int) and isinstance(y, Int) and st.ctx.limits.get('slots'):
+            sl = self.slot_binop(st, op, x, y, ins.ty[1])
+            if sl is not None:
+                r = self.with_slots(st, r, sl)
+        return r
+
+    def binop0(self, st, ins, op, x, y):
         w = ins.ty[1]
         if not isinstance(x, Int) or not isinstance(y, Int):
             return st.fresh_int('arith-on-nonint', w)
@@ -303,8 +311,89 @@ class Ops:
             return Int(w, Aff.sym(r))
         return st.fresh_int('and', w, 0, min(m, hi))
 
+    # ---- byte-slot vectors (which input byte / which byte of which value sits in each byte of a word) -----------
+    def slots(self, st, v):
+        if not isinstance(v, Int) or v.w % 8 or v.w > 64:
+            return None
+        if v.sl is not None:
+            return v.sl
+        n = v.w // 8
+        c = st.store.const_of(v.a)
+        if c is not None:
+            return tuple(('c', (c >> (8 * k)) & 0xff) for k in range(n))
+        sg = v.a.single()
+        if sg and sg[1] == 1 and v.a.c == 0:
+            info = st.syminfo.get(sg[0])
+            if n == 1:
+                return (('b', sg[0]),)
+            if info is not None and info.defn is None:
+                return tuple(('v', sg[0], k) for k in range(n))
+        return None
+
+    def with_slots(self, st, res, sl):
+        if sl is None or not isinstance(res, Int) or all(x is None for x in sl):
+            return res
+        return Int(res.w, res.a, res.pred, tuple(sl))
+
+    def slot_binop(self, st, op, x, y, w):
+        if not st.ctx.limits.get('slots'):
+            return None
+        n = w // 8
+        if w % 8 or w > 64:
+            return None
+        sx = self.slots(st, x)
+        S = st.store
+        if op in ('shl', 'lshr'):
+            k = S.const_of(y.a) if isinstance(y, Int) else None
+            if sx is None or k is None or k % 8:
+                return None
+            k //= 8
+            if op == 'shl':
+                return tuple([('c', 0)] * min(k, n) + list(sx[:max(n - k, 0)]))
+            return tuple(list(sx[k:]) + [('c', 0)] * min(k, n))
+        sy = self.slots(st, y)
+        if sx is None or sy is None:
+            return None
+        out = []
+        for a, b in zip(sx, sy):
+            if op == 'or':
+                if a == ('c', 0):
+                    out.append(b)
+                elif b == ('c', 0):
+                    out.append(a)
+                elif a is not None and b is not None and a[0] == 'c' and b[0] == 'c':
+                    out.append(('c', a[1] | b[1]))
+                elif a == b:
+                    out.append(a)
+                else:
+                    out.append(None)
+            elif op == 'and':
+                if a is not None and b is not None and a[0] == 'c' and b[0] == 'c':
+                    out.append(('c', a[1] & b[1]))
+                elif b == ('c', 0xff):
+                    out.append(a)
+                elif a == ('c', 0xff):
+                    out.append(b)
+                elif a == ('c', 0) or b == ('c', 0):
+                    out.append(('c', 0))
+                else:
+                    out.append(None)
+            else:
+                return None
+        return tuple(out)
+
     # ---- casts ----------------------------------------------------------------------------
     def cast(self, st, ins, op, x):
+        r = self.cast0(st, ins, op, x)
+        if op in ('zext', 'trunc') and isinstance(x, Int) and isinstance(r, Int) and st.ctx.limits.get('slots') and r.w % 8 == 0:
+            sx = self.slots(st, x)
+            if sx is not None:
+                n = r.w // 8
+                sl = tuple(list(sx[:n]) + [('c', 0)] * max(0, n - len(sx)))
+                r = self.with_slots(st, r, sl)
+        return r
+
+    def cast0(self, st, ins, op, x):
         tw = ins.ty[1] if ins.ty[0] == 'int' else None
         if op == 'bitcast':
             return x
